@@ -230,6 +230,26 @@ def c17(ctx):
                 if ures != ['UnsupportedHash']:
                     ctx.violation('spec', f'update_entry_for_path asked for the unsupported hash name {odd!r} (beside {good}) {str(ures)[:120]}: the name was not reported',
                                   {'hashes': good + [odd], 'result': str(ures)})
+        # a refresh asked for a subset / the same set / a superset of the names an entry carries, on a file whose content changed while its
+        # size did not: what the entry holds afterwards are digests of the content as it is now, for exactly the requested names
+        olddata, newdata = big[:300], bytes([big[0] ^ 1]) + big[1:300]
+        p = os.path.join(td, 'r')
+        LIBN = {'SHA1': 'sha1', 'SHA512': 'sha512', 'MD5': 'md5', 'SHA256': 'sha256'}
+        for have in (['SHA1', 'SHA512'], ['MD5', 'SHA1', 'SHA256'], ['SHA512']):
+            for ask in (['SHA512'], ['SHA1'], [], ['SHA1', 'SHA512'], ['MD5', 'SHA1', 'SHA256', 'SHA512'], ['MD5']):
+                for content in (newdata, olddata):
+                    open(p, 'wb').write(content)
+                    k += 1
+                    ent = gmf.ManifestEntryDATA('r', len(olddata), {h: ref_digest(LIBN[h], olddata) for h in have})
+                    try:
+                        gv.update_entry_for_path(p, ent, hashes=list(ask))
+                        got = ['ok', ent.size, dict(ent.checksums)]
+                    except Exception as e:
+                        got = ['raised', type(e).__name__]
+                    want = ['ok', len(content), {h: ref_digest(LIBN[h], content) for h in ask}]
+                    if got != want:
+                        ctx.violation('spec', f'update_entry_for_path(hashes={ask}) on an entry carrying {have}, file {"changed (same size)" if content is newdata else "unchanged"}: '
+                                      f'the entry holds {str(got)[:160]}, the digests of the present content are {str(want)[:160]}', {'have': have, 'ask': ask})
         # the size reported by fstat is only a hint (sysfs, network filesystems, a file that grows while it is read):
         # digests and __size__ describe the bytes read, for any hash set - the empty one included
         import stat as _stat
